@@ -9,6 +9,7 @@ package c04
 
 import (
 	"fmt"
+	"os"
 	"strings"
 	"testing"
 
@@ -18,7 +19,12 @@ import (
 	"verif/pnode"
 )
 
-func TestMain(m *testing.M) { lib.Main(m) }
+func TestMain(m *testing.M) {
+	if os.Getenv(helperEnv) != "" {
+		signerHelper() // child process of TestSignStateSyscallCrashPoints
+	}
+	lib.Main(m)
+}
 
 const prop = "C04"
 
